@@ -225,7 +225,7 @@ func TestPopulations(t *testing.T) {
 func TestGraphs(t *testing.T) {
 	kit.Rec.Rule(rule)
 	rapid.Check(t, func(t *rapid.T) {
-		s := graph.Gen(t, graph.GenOpts{MinNodes: 2, MaxNodes: 6, Variants: "NNRLP", Aliases: true, Selfs: true})
+		s := graph.Gen(t, graph.GenOpts{MinNodes: 2, MaxNodes: 6, Variants: "NNRLPE", Aliases: true, Selfs: true})
 		var runs []obsRun
 		for i := 0; i < reps(); i++ {
 			graph.DrawOrders(t, s)
